@@ -25,6 +25,10 @@ inductive Op where
   | process
   | next (t : Nat)
   | nextEmpty
+  /-- `process_prompt` where `Model::run` returns an error (environment choice). -/
+  | processFail
+  /-- `Iterator::next` where `Model::run` returns an error (environment choice). -/
+  | nextFail
   deriving Repr, DecidableEq
 
 /-- What the abstract model observes in one `Model::run` call. -/
@@ -33,12 +37,22 @@ structure Call where
   toks : List Nat
   /-- first position id (`position_ids`/`cache_position` are `start, start+1, …`). -/
   start : Nat
-  /-- KV cache handed in: `(id, sequence length)`; `none` for a model without cache inputs.
-  Cache id `0` is the empty cache the generator allocates, id `k+1` the cache returned by
-  the `k`-th call (0-based). -/
-  cacheIn : Option (Nat × Nat)
+  /-- KV cache handed in.  `none`: the model has no cache inputs.  `some none`: the model has
+  cache inputs but the generator supplies no tensor (it lost them in a failed run).
+  `some (some (id, len))`: cache `id` of sequence length `len`; id `0` is the empty cache the
+  generator allocates, id `k+1` the cache returned by the `k`-th call (0-based). -/
+  cacheIn : Option (Option (Nat × Nat))
   /-- whether the logits output was requested. -/
   logits : Bool
+  /-- number of positions covered by the `attention_mask` input (`[batch, positions.end]` ones). -/
+  attn : Nat
+  /-- the `use_cache_branch` input (`positions.start != 0`). -/
+  flag : Bool
+  /-- id of the cross-attention (encoder) cache handed in: `0` the generator's initial empty
+  one, `k+1` the one returned by call `k`.  Only meaningful for models with encoder caches. -/
+  encIn : Nat
+  /-- environment: did this `run` succeed? -/
+  ok : Bool
   deriving Repr, DecidableEq
 
 /-- Result of one operation as the caller sees it. -/
@@ -47,6 +61,7 @@ inductive Outcome where
   | tok (t : Nat)        -- `next` → `Some(Ok(t))`
   | errEmpty             -- `next` → `Some(Err("filtered logits are empty"))`
   | panicNoRow           -- `next` with nothing pending: logits have no row, `slice((0, -1))` panics
+  | errRun               -- `process_prompt`/`next` → `Err("failed to run model: …")`
   deriving Repr, DecidableEq
 
 /-- How `generate_impl` records the prompt in `prev_tokens`.
@@ -67,32 +82,54 @@ structure State where
   prev : List Nat
   /-- `recorded_input_len`: leading part of `input_ids` already present in `prev_tokens`. -/
   recorded : Nat
-  /-- KV cache currently held `(id, len)`; `none` when the model has no KV-cache inputs
-  (`self.kv_cache.is_empty()`). -/
-  kv : Option (Nat × Nat)
+  /-- KV cache currently held: `none` when the model has no KV-cache inputs
+  (`self.kv_cache.is_empty()`), `some none` when the entries exist but their tensors are gone
+  (`KvCache::cache == None` after a failed run), `some (some (id, len))` otherwise. -/
+  kv : Option (Option (Nat × Nat))
+  /-- id of the encoder (cross-attention) cache currently held. -/
+  enc : Nat
   /-- environment: number of `run` calls so far. -/
   calls : Nat
   deriving Repr, DecidableEq
 
 def State.init (hasKv : Bool) : State :=
   { inputIds := [], offset := 0, prev := [], recorded := 0,
-    kv := if hasKv then some (0, 0) else none, calls := 0 }
+    kv := if hasKv then some (some (0, 0)) else none, enc := 0, calls := 0 }
 
-/-- `generate_impl`: run the model on the pending tokens, store the returned cache,
-record the prompt, and (with a KV cache) advance the offset and clear the pending tokens. -/
+/-- The inputs of the next `Model::run` call as computed from the generator state. -/
+def callOf (s : State) (logits ok : Bool) : Call :=
+  { toks := s.inputIds, start := s.offset, cacheIn := s.kv, logits := logits,
+    attn := s.offset + s.inputIds.length, flag := s.offset != 0, encIn := s.enc, ok := ok }
+
+/-- `generate_impl` when `Model::run` succeeds: run the model on the pending tokens, store
+the returned caches, record the prompt, and (with KV-cache entries) advance the offset and
+clear the pending tokens.  The abstract model returns a self-attention cache extended by the
+fed tokens (built from nothing if no cache was supplied) and — as Optimum's merged decoders
+do — a fresh encoder cache only on a run that starts at position 0 (dummy empty tensors,
+which the generator ignores, otherwise). -/
 def generateImpl (r : Rule) (s : State) (logits : Bool) : State × Call :=
-  let c : Call := { toks := s.inputIds, start := s.offset, cacheIn := s.kv, logits := logits }
+  let c := callOf s logits true
   let n := s.inputIds.length
   let calls' := s.calls + 1
+  let enc' := if s.offset == 0 then calls' else s.enc
   let prev' := match r with
     | .legacy => if s.prev.isEmpty then s.prev ++ s.inputIds else s.prev
     | .tracked => s.prev ++ s.inputIds.drop s.recorded
   match s.kv with
-  | some (_, len) =>
+  | some held =>
+    let len := match held with
+      | some (_, len) => len
+      | none => 0
     ({ inputIds := [], offset := s.offset + n, prev := prev', recorded := 0,
-       kv := some (calls', len + n), calls := calls' }, c)
+       kv := some (some (calls', len + n)), enc := enc', calls := calls' }, c)
   | none =>
-    ({ s with prev := prev', recorded := n, calls := calls' }, c)
+    ({ s with prev := prev', recorded := n, enc := enc', calls := calls' }, c)
+
+/-- `generate_impl` when `Model::run` fails: the self-attention cache tensors were moved into
+the model's inputs before the call (`entry.cache.take()`) and are gone; the function returns
+before anything else is updated (encoder caches are only borrowed). -/
+def generateFail (s : State) (logits : Bool) : State × Call :=
+  ({ s with kv := s.kv.map (fun _ => none), calls := s.calls + 1 }, callOf s logits false)
 
 structure StepOut where
   st : State
@@ -119,6 +156,8 @@ def step (r : Rule) (s : State) : Op → StepOut
     let (s1, c) := generateImpl r s true
     if s.inputIds.isEmpty then ⟨s1, some c, none, .panicNoRow⟩
     else ⟨s1, some c, some s1.prev, .errEmpty⟩
+  | .processFail => let (s1, c) := generateFail s false; ⟨s1, some c, none, .errRun⟩
+  | .nextFail => let (s1, c) := generateFail s true; ⟨s1, some c, none, .errRun⟩
 
 /-- Run a history from state `s`, collecting the model's call log. -/
 def runFrom (r : Rule) : State → List Op → State × List Call
@@ -138,8 +177,9 @@ Pending tokens carry a flag "not yet part of the history".  Nothing here mention
 `recorded_input_len`, caches or `prev_tokens`. -/
 
 structure Spec where
-  /-- the token list each model call must have received, oldest call first -/
-  calls : List (List Nat)
+  /-- the token list each model call must have received and whether the call succeeded,
+  oldest call first -/
+  calls : List (List Nat × Bool)
   /-- every token submitted to or produced by the model, in order, each once -/
   hist : List Nat
   /-- pending tokens with the flag "fresh" (= not yet in `hist`) -/
@@ -152,9 +192,14 @@ def Spec.init : Spec := ⟨[], [], []⟩
 history.  With a KV cache they stop being pending (the cache remembers them); without one
 the whole sequence stays pending and is resubmitted next time. -/
 def Spec.feed (hasKv : Bool) (sp : Spec) : Spec :=
-  { calls := sp.calls ++ [sp.pend.map (·.1)],
+  { calls := sp.calls ++ [(sp.pend.map (·.1), true)],
     hist := sp.hist ++ (sp.pend.filter (·.2)).map (·.1),
     pend := if hasKv then [] else sp.pend.map (fun x => (x.1, false)) }
+
+/-- The model is run and fails: it was handed the pending tokens, which stay pending; nothing
+was submitted successfully, so the history is unchanged. -/
+def Spec.feedFail (sp : Spec) : Spec :=
+  { sp with calls := sp.calls ++ [(sp.pend.map (·.1), false)] }
 
 def Spec.step (hasKv : Bool) (sp : Spec) : Op → Spec
   | .withPrompt p => { sp with pend := p.map (·, true) }
@@ -166,6 +211,8 @@ def Spec.step (hasKv : Bool) (sp : Spec) : Op → Spec
     if sp.pend.isEmpty then sp'
     else { sp' with hist := sp'.hist ++ [t], pend := sp'.pend ++ [(t, false)] }
   | .nextEmpty => sp.feed hasKv
+  | .processFail => sp.feedFail
+  | .nextFail => sp.feedFail
 
 def Spec.runFrom (hasKv : Bool) : Spec → List Op → Spec
   | sp, [] => sp
@@ -173,20 +220,52 @@ def Spec.runFrom (hasKv : Bool) : Spec → List Op → Spec
 
 def Spec.run (hasKv : Bool) (ops : List Op) : Spec := Spec.runFrom hasKv Spec.init ops
 
-/-! ## Log predicates (also used verbatim as the harness oracle's definition) -/
+/-! ## Log predicates (also the definition the harness oracle implements) -/
 
-/-- `logOk i p log`: the calls are numbered `i, i+1, …`; each starts at the position where
-the previous one ended (`p` for the first) and is handed the cache `(i, p)` — i.e. the cache
-returned by the previous call, holding exactly the tokens fed so far. -/
-def logOk : Nat → Nat → List Call → Bool
-  | _, _, [] => true
-  | i, p, c :: cs =>
-    c.start == p && c.cacheIn == some (i, p) && logOk (i + 1) (p + c.toks.length) cs
+/-- What the next call must look like, given the calls so far. -/
+structure LogSt where
+  /-- self-attention cache the generator holds (`none`: lost in a failed run) -/
+  held : Option (Nat × Nat)
+  /-- encoder cache the generator holds -/
+  enc : Nat
+  /-- number of calls so far -/
+  idx : Nat
+  /-- position where the next call starts = tokens fed by successful calls -/
+  pos : Nat
+  /-- all checks so far passed -/
+  good : Bool
+  deriving Repr, DecidableEq
 
-/-- Log shape for a model without KV cache: every call starts at position 0, no cache. -/
+def LogSt.init : LogSt := ⟨some (0, 0), 0, 0, 0, true⟩
+
+/-- Check one call of a model **with** KV cache against the expectation and advance:
+it starts where the successful calls so far ended, its attention mask covers `0..end`, the
+`use_cache_branch` flag is `start ≠ 0`, the self-attention cache is the one the previous call
+returned (absent right after a failed call), the encoder cache is the one last returned. -/
+def logStep (st : LogSt) (c : Call) : LogSt :=
+  let n := c.toks.length
+  let good := st.good && c.start == st.pos && c.cacheIn == some st.held &&
+    c.attn == st.pos + n && c.flag == (st.pos != 0) && c.encIn == st.enc
+  if c.ok then
+    let len := match st.held with
+      | some (_, l) => l
+      | none => 0
+    { held := some (st.idx + 1, len + n), enc := if st.pos == 0 then st.idx + 1 else st.enc,
+      idx := st.idx + 1, pos := st.pos + n, good := good }
+  else
+    { st with held := none, idx := st.idx + 1, good := good }
+
+def logRun (st : LogSt) (log : List Call) : LogSt := log.foldl logStep st
+
+/-- The whole log of a KV-cache model is well formed. -/
+def logOk (log : List Call) : Bool := (logRun LogSt.init log).good
+
+/-- Log shape for a model without KV cache: every call starts at position 0 with a mask over
+exactly the tokens fed, no cache. -/
 def logOkNoKv : List Call → Bool
   | [] => true
-  | c :: cs => c.start == 0 && c.cacheIn == none && logOkNoKv cs
+  | c :: cs => c.start == 0 && c.cacheIn == none && c.attn == c.toks.length && c.flag == false &&
+      logOkNoKv cs
 
 /-- All position ids the model saw, call after call. -/
 def positions (log : List Call) : List Nat :=
@@ -194,5 +273,20 @@ def positions (log : List Call) : List Nat :=
 
 /-- All tokens the model saw, call after call. -/
 def fed (log : List Call) : List Nat := log.flatMap (·.toks)
+
+/-- The calls that succeeded. -/
+def okCalls (log : List Call) : List Call := log.filter (·.ok)
+
+/-- Operations in which `Model::run` fails. -/
+def Op.isFail : Op → Bool
+  | .processFail => true
+  | .nextFail => true
+  | _ => false
+
+/-- Operations that discard pending tokens. -/
+def Op.discards : Op → Bool
+  | .clear => true
+  | .withPrompt _ => true
+  | _ => false
 
 end RtenVerif.Generator
